@@ -9,9 +9,9 @@ ASSUMPTIONS = ['"defines link references" is over-approximated syntactically by 
                'parsed with the HtmlRenderer token set (default tokens + HtmlBlock/HtmlSpan)']
 CLOSED = {'Paragraph', 'Heading', 'SetextHeading', 'ThematicBreak', 'Quote', 'Table'}
 BOUNDS = {'quick': (2, 2), 'thorough': (3, 2)}
-L = spaces.LINES + ['<!-- x -->', '> <!-- c', '> ```', '> <?p', '<x-y>', '# h #', '#', '> | a | b |', '> |---|---|']
+L = spaces.LINES + ['<!-- x -->', '> <!-- c', '> ```', '> <?p', '<x-y>', '# h #', '#', '> | a | b |', '> |---|---|', '      ']
 # B is additionally enumerated to 3 lines over the lines that read or write parser scratch state
-LB3 = ['<div>', '', 'foo', '```', '# h', '> q', '- a', '<!-- x -->', '===', '<x-y>', '-', '#']
+LB3 = ['<div>', '', 'foo', '```', '# h', '> q', '- a', '<!-- x -->', '===', '<x-y>', '-', '#', '      ']
 # family F2: A = X + blank line + closing paragraph (so that any X qualifies as "ending in a closed block"); X holds
 # look-aheads that are made but not consumed (indented table rows after a paragraph, ...)
 LX = ['foo', '    | a | b |', '    |---|---|', '| a | b |', '|---|---|', '- a', '  b', '> q', '```', '<div>', '    c', '', '-', '===', '- # h', '> - a']
@@ -202,6 +202,10 @@ def run_job(job):
         alpha = LX if which == 'LX' else L + ['    | a | b |', '    |---|---|']
         Bs = [list(b) for n in (1, 2) for b in itertools.product(LBX, repeat=n) if b[-1].strip()]
         Bs += [list(b) for b in itertools.product(LT, repeat=3) if b[-1].strip()]
+        # a table that is dispatched directly at the start / second line of a list item's own reader (same cursor index as a table
+        # that interrupted a paragraph in A)
+        Bs += [['- # h', '  | c | d |', '  |---|---|', '  | 3 | 4 |'], ['- foo', '  | c | d |', '  |---|---|'], ['1. ***', '', '   | c | d |', '   |---|---|'],
+               ['> # h', '> | c | d |', '> |---|---|'], ['- | c | d |', '  |---|---|', '  | 3 | 4 |']]
         Xs = [[alpha[i]]] if j == 0 else []
         Xs += [[alpha[i], alpha[j]]] + [[alpha[i], alpha[j], x] for x in alpha]
         for X in Xs:
